@@ -696,13 +696,16 @@ pub fn run(ctx: &Ctx) -> Outcome {
     let r4 = search(ctx, &s2, "C05", maxd, budget * 0.97, true);
     let s3 = ServerConc::new_variant(if quick { "server-limit1-blocked-q" } else { "server-limit1-blocked-t" }, quick, 1, true);
     let r5 = search(ctx, &s3, "C05", maxd, budget * 1.2, true);
-    fill_outcome(&mut out, &[(c1.name, &r1), (c2.name, &r2), (s1.name, &r3), (s2.name, &r4), (s3.name, &r5)]);
+    // the limit the CLIENT advertises applies to the streams the server pushes: two promises, limit 1
+    let p1 = crate::c19::PushLife::new_variant("push-life-limit1", 2, Some(1));
+    let r6 = search(ctx, &p1, "C05", if quick { 9 } else { 13 }, budget * 1.4, true);
+    fill_outcome(&mut out, &[(c1.name, &r1), (c2.name, &r2), (s1.name, &r3), (s2.name, &r4), (s3.name, &r5), (p1.name, &r6)]);
     out.set("exhaustive", json!(false));
     out.set("alphabet", json!({"client": c1.events.iter().map(|e| format!("{:?}", e)).collect::<Vec<_>>(), "server": s1.events.iter().map(|e| format!("{:?}", e)).collect::<Vec<_>>()}));
     out.set("rule", json!("X2 on T2, both directions. Client subject: 2-3 SendRequest clones, requests (parked when over the limit), poll_ready, peer responses / RST_STREAM, client reset / drop, peer SETTINGS MAX_CONCURRENT_STREAMS {0,1,2,unlimited} at any time, GOAWAY; invariant: the subject never opens a stream while as many as the acknowledged limit are open on the wire according to what it has itself sent and consumed; epilogue: no request parked while a slot is free, no poll_ready waiter left unwoken. Server subject advertising 1 / 2: peer opens up to limit+2 streams and closes them by every path, application responds / resets / drops / reads; invariant: unfinished streams surfaced <= limit, a refused stream gets exactly one REFUSED_STREAM and never reaches accept(); epilogue: nothing in limbo, and a new stream is accepted whenever fewer than the limit are open on the wire (every close path frees its slot)"));
     out.add_sample(json!({"harness": format!("x2.{}", c1.name), "depth": 3, "choices": [1, 1, 14]}));
     let mut vs = VioSet::default();
-    for r in [r1, r2, r3, r4, r5] {
+    for r in [r1, r2, r3, r4, r5, r6] {
         vs.merge(r.agg.vios);
     }
     fill_sweep(&mut out, &mut vs, ctx.tier.is_quick());
